@@ -418,3 +418,184 @@ class DispatchRegionsRewriter_contract:
 
     def canary(sh, a, ret):
         check("canary: nothing is ever guarded", len(collect_guarded(ret, None)) == 0)
+
+
+# =====================================================================================
+# C18: tosa.rescale (+clamp) -> kernel.rescale, and kernel.rescale -> arithmetic
+# =====================================================================================
+from pyvc.api import bv_add, bv_ashr, bv_mul, bv_sext, bv_sle, bv_smax, bv_smin, bv_sub  # noqa: E402
+from xdsl.dialects import tosa  # noqa: E402
+from xdsl.dialects.builtin import DenseArrayBase, IntegerAttr, StringAttr, TensorType  # noqa: E402
+from xdsl.ir import Use  # noqa: E402
+
+import snaxc.transforms.convert_tosa_to_kernel as t2k  # noqa: E402
+
+
+@contract
+class RescaleClampPattern_contract:
+    """tosa.rescale (+ tosa.clamp) -> linalg.generic { kernel.rescale }: every parameter is carried over unchanged, the
+    clamp bounds are those of the tosa.clamp, and WITHOUT a clamp they are exactly the signed range of the output
+    element type (tosa.rescale saturates to the output type)"""
+    target = "snaxc.transforms.convert_tosa_to_kernel.RescaleClampPattern.match_and_rewrite"
+    shapes = [dict(clamp=c, out=o, uses=u, dr=d) for c in (False, True) for o in (8, 32, 16) for u in (1, 2) for d in (False, True)
+              if not (u == 2 and (c or d)) and not (o == 16 and d)]
+    native = False
+    total = True
+    permissive = True
+    compare_ret = False
+
+    def args(sh, sym):
+        w = sh["out"]
+        in_t = TensorType(i32, [4, 4])
+        out_t = TensorType(IntegerType(w), [4, 4])
+        x = mk_ssa(None, in_t)
+        p = dict(zi=sym.int("input_zp", -(1 << 31), (1 << 31) - 1), zo=sym.int("output_zp", -(1 << 31), (1 << 31) - 1),
+                 m=sym.int("multiplier", -(1 << 31), (1 << 31) - 1), s=sym.int("shift", 0, 63),
+                 lo=sym.int("clamp_min", -(1 << (w - 1)), (1 << (w - 1)) - 1), hi=sym.int("clamp_max", -(1 << (w - 1)), (1 << (w - 1)) - 1))
+        consts = [tosa.ConstOp(DenseArrayBase((v,), i32)) for v in (p["m"], p["s"], p["zi"], p["zo"])]
+        r = tosa.RescaleOp(x, consts[0].output, consts[1].output, consts[2].output, consts[3].output, out_t,
+                           StringAttr("DOUBLE_ROUND" if sh["dr"] else "SINGLE_ROUND"))
+        users = []
+        if sh["clamp"]:
+            c = tosa.ClampOp(r.output, IntegerAttr(p["lo"], IntegerType(w)), IntegerAttr(p["hi"], IntegerType(w)), out_t)
+            r.output.uses.append(Use(c, 0))
+            users.append(c)
+        else:
+            for _ in range(sh["uses"]):
+                u = BodyOp()
+                r.output.uses.append(Use(u, 0))
+                users.append(u)
+        return [t2k.RescaleClampPattern(), r, p, users]
+
+    def run(sh, a):
+        rw = PatternRewriter(a[1])
+        a[0].match_and_rewrite(a[1], rw)
+        return rw.log
+
+    def ensures(sh, a, ret):
+        pat, r, p, users = a
+        w = sh["out"]
+        if len(ret) == 0:
+            check("a rescale is only left alone when it has several users or an output type without a default range",
+                  sh["uses"] != 1 or (not sh["clamp"] and w not in (8, 32)))
+            return
+        reps = [e for e in ret if e[0] == "replace_op"]
+        last = users[0] if sh["clamp"] else r
+        check("the last op of the pair is replaced by the new generic", len(reps) == 1 and reps[0][1] is last)
+        check("the rescale is erased when the clamp was replaced", (not sh["clamp"]) or any(e[0] == "erase_op" and e[1] is r for e in ret))
+        g = reps[0][2][-1]
+        check("the replacement ends in a linalg.generic on the rescale input", isinstance(g, linalg.GenericOp) and g.inputs[0] is r.input)
+        k = g.body.block.ops[0]
+        check("its body is one kernel.rescale on the input element, yielded", isinstance(k, kernel.RescaleOp) and k.operands[0] is g.body.block.args[0]
+              and isinstance(g.body.block.ops[1], linalg.YieldOp) and g.body.block.ops[1].operands[0] is k.results[0])
+        at = k.attributes
+        check("zero points, multiplier and shift are those of the tosa.rescale",
+              at["input_zp"].value.data == p["zi"] and at["output_zp"].value.data == p["zo"]
+              and list(at["multiplier"].get_values()) == [p["m"]] and list(at["shift"].get_values()) == [p["s"]])
+        check("double_round mirrors the rounding mode", at["double_round"].value.data == (1 if sh["dr"] else 0))
+        if sh["clamp"]:
+            check("clamp bounds are those of the tosa.clamp", at["min_int"].value.data == p["lo"] and at["max_int"].value.data == p["hi"])
+        else:
+            check("without a clamp the result saturates to the signed range of the output element type: [-(2^(w-1)), 2^(w-1) - 1]",
+                  at["min_int"].value.data == -(1 << (w - 1)) and at["max_int"].value.data == (1 << (w - 1)) - 1)
+        check("the kernel result has the output element type", k.results[0].type == IntegerType(w))
+
+    def canary(sh, a, ret):
+        check("canary: never rewritten", len(ret) == 0 and sh["uses"] == 1 and sh["out"] == 8)
+
+
+def golden_rescale(x, zi, zo, m, s, lo, hi, dr):
+    """util/gemmx/simd_golden_model.py (the repository's reference for the rescale unit) in fixed-width words"""
+    d = bv_sub(x, zi, 32)
+    prod = bv_mul(bv_sext(d, 32, 64), m, 64)  # np.int64(var) * np.int64(multiplier): m is already a 64-bit word
+    v64 = bv_ashr(prod, bv_sub(s, 1, 64), 64)
+    v = bv_sext(v64, 64, 32)  # np.int32(...): truncation
+    if dr:
+        v = ite(bv_sle(0, v, 32), bv_add(v, 1, 32), bv_sub(v, 1, 32))
+    v = bv_ashr(v, 1, 32)
+    v = bv_add(v, zo, 32)
+    v = bv_smin(bv_smax(v, lo, 32), hi, 32)  # np.clip
+    return v, v64
+
+
+@contract
+class LowerRescale_contract:
+    """kernel.rescale -> arith: the emitted arithmetic (exact 32/64-bit word semantics) equals the repository's golden
+    model of the rescale unit (util/gemmx/simd_golden_model.py) for every input, zero point, multiplier, shift and clamp
+    range for which the golden model's own intermediate fits its int32"""
+    target = "snaxc.transforms.convert_kernel_to_linalg.LowerRescale.match_and_rewrite"
+    shapes = [dict(dr=False, shift=k) for k in range(1, 64)] + [dict(dr=True, shift=k) for k in (1, 2, 17, 40, 63)]
+    total = True
+    permissive = True
+    compare_ret = False
+
+    def args(sh, sym):
+        # parameters are 64-bit words read as signed numbers in their attribute ranges: no integer <-> bit-vector
+        # conversions in the verification conditions; the shift is enumerated (all 63 values)
+        i32lo, i32hi = -(1 << 31), (1 << 31) - 1
+        return [sym.bv("x", 32), sym.sbv("input_zp", 64, i32lo, i32hi), sym.sbv("output_zp", 64, i32lo, i32hi), sym.sbv("multiplier", 64, i32lo, i32hi),
+                sh["shift"], sym.sbv("min_int", 64, -128, 127), sym.sbv("max_int", 64, -128, 127)]
+
+    def requires(sh, a):
+        return bv_sle(a[5], a[6], 64)
+
+    def run(sh, a):
+        set_bv_all(True)
+        x, zi, zo, m, s, lo, hi = a
+        k = kernel.RescaleOp(mk_ssa(x, i32), i8, IntegerAttr(zi, i32), IntegerAttr(zo, i32), DenseArrayBase((m,), i32), DenseArrayBase((s,), i32),
+                             IntegerAttr(hi, i32), IntegerAttr(lo, i32), sh["dr"])
+        body = Region([Block([k, linalg.YieldOp(k)])])
+        linalg.GenericOp([], [], body, None, None, [], None, None)
+        rw = PatternRewriter(k)
+        k2l.LowerRescale().match_and_rewrite(k, rw)
+        reps = [e for e in rw.log if e[0] == "replace_op" and e[1] is k]
+        if len(reps) != 1:
+            return dict(replaced=False)
+        out = reps[0][2][-1]
+        return dict(replaced=True, i8=out.results[0].type == i8, got=den(out), np_ref=None, prod=den(reps[0][2][2]))
+
+    def native_run(sh, a):
+        from xdsl.dialects.builtin import AffineMapAttr, ArrayAttr, MemRefType, ModuleOp
+        from xdsl.ir.affine import AffineMap
+        from xdsl.utils.test_value import create_ssa_value
+        x, zi, zo, m, s, lo, hi = a
+        blk = Block(arg_types=[i32, i8])
+        k = kernel.RescaleOp(blk.args[0], i8, zi, zo, [m], [s], hi, lo, sh["dr"])
+        blk.add_ops([k, linalg.YieldOp(k)])
+        g = linalg.GenericOp([create_ssa_value(MemRefType(i32, [4]))], [create_ssa_value(MemRefType(i8, [4]))], Region([blk]),
+                             [AffineMapAttr(AffineMap.identity(1)), AffineMapAttr(AffineMap.identity(1))],
+                             ArrayAttr([linalg.IteratorTypeAttr.parallel()]), [])
+        mod = ModuleOp([g])
+        rw = PatternRewriter(k)
+        k2l.LowerRescale().match_and_rewrite(k, rw)
+        y = blk.last_op
+        out = y.operands[0]
+        if out is k.results[0]:
+            return dict(replaced=False)
+        # the ORIGINAL numpy golden model on the same input (cross-checks the word-level transcription `golden_rescale`)
+        import numpy as np
+        from util.gemmx.simd_golden_model import postprocessing_simd_golden_model
+        xs = x - (1 << 32) if x >> 31 else x
+        with np.errstate(all="ignore"):
+            np_ref = int(postprocessing_simd_golden_model(np.array([xs], dtype=np.int64), zi, zo, s, hi, lo, 1 if sh["dr"] else 0, m)[0])
+        return dict(replaced=True, i8=out.type == i8, got=den(out, {id(blk.args[0]): x}), np_ref=np_ref, prod=None)
+
+    def ensures(sh, a, ret):
+        x, zi, zo, m, s, lo, hi = a
+        check("the kernel op is replaced by arithmetic", ret["replaced"])
+        check("the result is an i8 value", ret["i8"])
+        got = ret["got"]
+        ref, v64 = golden_rescale(x, zi, zo, m, s, lo, hi, sh["dr"])
+        fits = bv_eq(bv_sext(bv_sext(v64, 64, 32), 32, 64), v64, 64) and bv_eq(bv_sub(bv_sext(x, 32, 64), bv_sext(zi, 32, 64), 64), bv_sext(bv_sub(x, zi, 32), 32, 64), 64)
+        check("(decided natively only) the contract's word-level transcription agrees with the numpy golden model",
+              True if ret["np_ref"] is None else implies(fits, bv_eq(ref, ret["np_ref"], 32)))
+        if sh["dr"]:
+            check("with double rounding the lowered arithmetic equals the golden model (rounding is NOT ignored)", implies(fits, bv_eq(bv_sext(got, 8, 32), ref, 32)))
+        else:
+            # the 64-bit product is the same term in the code and in the model: the proof does not need to look inside
+            check("the lowered arithmetic equals the golden model (single rounding) whenever the model's intermediate fits int32",
+                  implies(fits, bv_eq(bv_sext(got, 8, 32), ref, 32)), generalize=[ret["prod"]])
+        check("the result always lies inside the clamp range", bv_sle(lo, bv_sext(got, 8, 32), 32) and bv_sle(bv_sext(got, 8, 32), hi, 32), generalize=[ret["prod"]])
+
+    def canary(sh, a, ret):
+        check("canary: the result is always 0", bv_eq(ret["got"], 0, 8))
